@@ -259,6 +259,15 @@ def _explore_lemma(I, c, prop):
     return I.ex.explore(thunk)
 
 
+def _fresh_params(I, params):
+    """Fresh symbolic arguments; the sort `same:<earlier parameter>` binds a parameter to the very
+    same object as an earlier one (calls such as `v == v`, where identity-based shortcuts apply)."""
+    vals = {}
+    for p, s in params.items():
+        vals[p] = vals[s[5:]] if s.startswith('same:') else fresh_of_sort(I, s, p)
+    return vals
+
+
 def _explore_function(I, c, tgt, mode, prop, short):
     def thunk_inner():
         if mode == 'nested':
@@ -279,7 +288,7 @@ def _explore_function(I, c, tgt, mode, prop, short):
         if c.setup is not None:
             vals = c.setup(I)
         else:
-            vals = {p: fresh_of_sort(I, s, p) for p, s in c.params.items()}
+            vals = _fresh_params(I, c.params)
         if mode == 'nested':
             vals.update({k: v for k, v in cenv.vars.items() if k in c.closure})
         if c.requires is not None:
